@@ -16,7 +16,7 @@ use serde_json::json;
 use std::collections::HashMap;
 use std::io::{BufRead, Write};
 
-pub const RULE: &str = "emit phase: 16 worker PROCESSES x 4 threads; every thread performs (1) HOMOGENEOUS sequences - n consecutive calls of ONE entry point with identical arguments (n = 80 per thread and group in the quick tier, 320 in the thorough tier, four times that for the cheap entry points SecretKey::new, ProofCommitmentChallenge::new and sign_crypt - i.e. 2560 / 10240 sign_crypt calls per PROCESS and N = 20480 / 81920 over all processes; a generator that recycles state with a period <= n is visible whatever happens in between) for SecretKey::new, ProofCommitmentChallenge::new, sign_crypt, encrypt_time_lock, encrypt_key_el_gamal, ProofCommitment::generate, split - and (2) an INTERLEAVED sequence in which every randomized entry point is called once per round and ALL observables are logged, for both groups: SecretKey::new, SecretKey::split (3-of-5: the polynomial coefficients a1,a2 are recovered from the shares), ProofCommitmentChallenge::new, PublicKey::sign_crypt (u, v), encrypt_time_lock (u, v), encrypt_key_el_gamal (c1), encrypt_key_el_gamal_with_proof (c1 and r1 = P*blinder_proof - c1*challenge), ProofCommitment::generate (u and secret x), ProofOfKnowledgeTimestamp::generate (u). Each observable is logged as {pid, tid, seq, entry, pool, value}. check phase (offline, over ALL logs): within each pool - scalars per suite, key-group points per suite, signature-group points per suite, masks - every value must be globally distinct across calls, threads and processes; pools are shared across entry points so a value reused between two entry points (e.g. the same r in signcryption and time-lock) shows as equal u. A collision is reported with both witnesses. distinct_nontrivial = number of distinct observable values seen; evaluations = number of observables checked. A generator that is weak but never repeats is observationally indistinguishable and not claimed.";
+pub const RULE: &str = "emit phase: 16 worker PROCESSES x 4 threads; every thread performs (1) HOMOGENEOUS sequences - n consecutive calls of ONE entry point with identical arguments (n = 80 per thread and group in the quick tier, 320 in the thorough tier, four times that for the cheap entry points SecretKey::new, ProofCommitmentChallenge::new and sign_crypt - i.e. 2560 / 10240 sign_crypt calls per PROCESS and N = 20480 / 81920 over all processes; a generator that recycles state with a period <= n is visible whatever happens in between) for SecretKey::new, ProofCommitmentChallenge::new, sign_crypt, encrypt_time_lock, encrypt_key_el_gamal, ProofCommitment::generate, split - and (2) an INTERLEAVED sequence in which every randomized entry point is called once per round and ALL observables are logged, for both groups: SecretKey::new, SecretKey::split (3-of-5: the polynomial coefficients a1,a2 are recovered from the shares), ProofCommitmentChallenge::new, PublicKey::sign_crypt (u, v), encrypt_time_lock (u, v), encrypt_key_el_gamal (c1), encrypt_key_el_gamal_with_proof (c1 and r1 = P*blinder_proof - c1*challenge), ProofCommitment::generate (u and secret x), ProofOfKnowledgeTimestamp::generate (u), and the trait-level BlsElGamal::seal_scalar_with_proof with a caller-supplied blinder (its proof nonce r1 must still be fresh). Each observable is logged as {pid, tid, seq, entry, pool, value}. check phase (offline, over ALL logs): within each pool - scalars per suite, key-group points per suite, signature-group points per suite, masks - every value must be globally distinct across calls, threads and processes; pools are shared across entry points so a value reused between two entry points (e.g. the same r in signcryption and time-lock) shows as equal u. A collision is reported with both witnesses. distinct_nontrivial = number of distinct observable values seen; evaluations = number of observables checked. A generator that is weak but never repeats is observationally indistinguishable and not claimed.";
 
 #[derive(Serialize, Deserialize, Clone)]
 struct Ev {
@@ -148,6 +148,24 @@ fn one_thread<C: Suite>(pid: u32, tid: u32, n: u32, out: &mut Vec<Ev>) {
                 push(seq, "PublicKey::encrypt_key_el_gamal_with_proof/r1", "pk-point", r1.enc());
             }
         }
+        // trait-level entry point with a caller-supplied blinder: c1 is then fixed by the caller,
+        // but the proof's own nonce (public image r1 = P*blinder_proof - c1*challenge) must be fresh
+        {
+            use rand_core::SeedableRng;
+            let fixed_b = sc_from_rs::<C>(&refimpl::keygen(b"C20 fixed explicit blinder"));
+            let rng = rand_chacha::ChaCha20Rng::from_entropy();
+            if let Ok((c1, _c2, _mp, bp, ch)) = <C as BlsElGamal>::seal_scalar_with_proof(pk.0, m.0, None, Some(fixed_b), rng) {
+                if let Some(c1r) = RPk::<C>::dec(&enc_pt(&c1)) {
+                    let r1 = RPk::<C>::gen().mul(&rs_from_sc::<C>(&bp)).sub(c1r.mul(&rs_from_sc::<C>(&ch)));
+                    push(seq, "BlsElGamal::seal_scalar_with_proof(explicit blinder)/r1", "pk-point", r1.enc());
+                    // c1 is fixed by the caller and therefore NOT pooled; but r1 == c1 means the
+                    // nonce is the blinder itself: log it a second time so the checker sees the reuse
+                    if r1.enc() == enc_pt(&c1) {
+                        push(seq, "BlsElGamal::seal_scalar_with_proof(explicit blinder)/c1=r1", "pk-point", enc_pt(&c1));
+                    }
+                }
+            }
+        }
         if let Ok((com, x)) = ProofCommitment::<C>::generate(&msg, sig) {
             let u = match com {
                 ProofCommitment::Basic(u) | ProofCommitment::MessageAugmentation(u) | ProofCommitment::ProofOfPossession(u) => u,
@@ -183,7 +201,7 @@ fn emit(ctx: &mut Ctx) {
             })
         })
         .collect();
-    let path = dir.join(format!("worker-{}.jsonl", ctx.worker));
+    let path = dir.join(format!("worker-{}-{}.jsonl", ctx.build.replace('/', "_"), ctx.worker));
     let mut f = match std::fs::File::create(&path) {
         Ok(f) => std::io::BufWriter::new(f),
         Err(e) => {
